@@ -31,6 +31,13 @@ spec_g = z3.Function("spec_g", z3.IntSort(), R, R, R, R, R, R)
 spec_J = z3.Function("spec_J", z3.IntSort(), z3.IntSort(), R, R, R, R, R, R)   # (i, ci, omega, v0..v3)
 spec_I = z3.Function("spec_I", z3.IntSort(), z3.IntSort(), R, R, R, R, R, R)
 QUARTER = z3.RealVal("1/4")
+EPS = z3.Real("THM_EPSILON")      # -DTHM_EPSILON=1e-10 in the real build (CMakeLists.txt); kept symbolic, > 0
+MAC = {"THM_EPSILON": EPS}
+
+
+def _separated(v):
+    """sorted vertex frequencies separated by at least THM_EPSILON: the epsilon guards of _f are inactive"""
+    return [v[1] - v[0] >= EPS, v[2] - v[1] >= EPS, v[3] - v[2] >= EPS]
 
 
 def _sorted(v, strict=False):
@@ -81,7 +88,9 @@ TERMS = {}   # (fname, i, ci) -> z3 term over omega, vertices_omegas[0..3]
 def _req(V, fn=None):
     i = _ival(V.p.i)
     v = V.a.vertices_omegas
-    r = _sorted(v) + _region(i, V.p.omega, v)
+    r = [EPS > 0] + _sorted(v) + _region(i, V.p.omega, v)
+    if i in (1, 2, 3):
+        r += _separated(v)
     if fn == "_I" and i == 2:
         # _I_2c divides by f12*f20 + f21*f13, which vanishes at omega == v2 == v3
         r += [V.p.omega < v[3]]
@@ -103,6 +112,18 @@ def _n_def(V):
     return [spec_n(z3.IntVal(i), *_args(V)) == TERMS[("_n", i, None)]]
 
 
+def _live(ret):
+    """value of a region function: either a plain formula or If(<eps guard>, formula, 0) (THM_EPSILON build)"""
+    r = ret
+    if z3.is_app(r) and r.decl().kind() == z3.Z3_OP_ITE:
+        c, a, b = r.children()
+        if z3.is_rational_value(z3.simplify(b)) and z3.simplify(b).numerator_as_long() == 0:
+            return a, c
+        if z3.is_rational_value(z3.simplify(a)) and z3.simplify(a).numerator_as_long() == 0:
+            return b, z3.Not(c)
+    return r, None
+
+
 def _hints(fn):
     def h(lab, V, goal):
         if not lab.startswith("range"):
@@ -110,11 +131,17 @@ def _hints(fn):
         i = _ival(V.p.i)
         if i in (0, 4):
             return {}
+        live, guard = _live(V.ret)
         defs = []
         if ("_n", i, None) in TERMS:
             defs = [(spec_n(z3.IntVal(i), *_args(V)), TERMS[("_n", i, None)])]
         try:
-            exprs = [sp.srepr(e) for e in cas.ineq_exprs(goal, defs)]
+            g1 = z3.substitute(goal, (V.ret, live)) if guard is not None else goal
+            if guard is not None:
+                g0 = z3.simplify(z3.substitute(goal, (V.ret, z3.RealVal(0))))
+                if not z3.is_true(g0):
+                    return {}
+            exprs = [sp.srepr(e) for e in cas.ineq_exprs(g1, defs)]
         except ValueError:
             return {}
         subs, names = _gaps(i)
@@ -124,12 +151,17 @@ def _hints(fn):
 
 def _capture(fn):
     def after(ex, outs, Vold):
-        assert len(outs) == 1, "straight-line function expected"
+        assert len(outs) == 1, "one merged outcome expected"
         st, ret = outs[0]
+        live, guard = _live(ret)
         i = _ival(ex.cur_P.i)
         ci = _ival(ex.cur_P.ci) if "ci" in ex.cur_P else None
-        TERMS[(fn, i, ci)] = ret
+        TERMS[(fn, i, ci)] = live          # region formula (where the build's epsilon guard is inactive)
+        GUARDS[(fn, i, ci)] = guard
     return after
+
+
+GUARDS = {}
 
 
 def _exact(V, below, above):
@@ -143,17 +175,17 @@ def _exact(V, below, above):
 
 
 def generic_contracts():
-    n = Contract(F, "_n", shapes=SH4, requires=_req, after=_capture("_n"), hints=_hints("_n"),
+    n = Contract(F, "_n", shapes=SH4, macros=MAC, prune=True, requires=_req, after=_capture("_n"), hints=_hints("_n"),
                  ensures=lambda V: [("def", V.ret == spec_n(V.p.i, *_args(V))),
                                     ("range:n in [0,1]", z3.And(V.ret >= 0, V.ret <= 1))] + _exact(V, 0, 1),
                  facts=None)
-    g = Contract(F, "_g", shapes=SH4, requires=_req, after=_capture("_g"), hints=_hints("_g"),
+    g = Contract(F, "_g", shapes=SH4, macros=MAC, prune=True, requires=_req, after=_capture("_g"), hints=_hints("_g"),
                  ensures=lambda V: [("def", V.ret == spec_g(V.p.i, *_args(V))), ("range:g >= 0", V.ret >= 0)] + _exact(V, 0, 0))
-    J = Contract(F, "_J", shapes=SH4, requires=_req, after=_capture("_J"), hints=_hints("_J"),
+    J = Contract(F, "_J", shapes=SH4, macros=MAC, prune=True, requires=_req, after=_capture("_J"), hints=_hints("_J"),
                  ensures=lambda V: [("def", V.ret == spec_J(V.p.i, V.p.ci, *_args(V))), ("range:J >= 0", V.ret >= 0),
                                     ("range:J*n <= 1/4", V.ret * spec_n(V.p.i, *_args(V)) <= QUARTER)] + _exact(V, 0, QUARTER),
                  facts=_n_def)
-    Ic = Contract(F, "_I", shapes=SH4, requires=lambda V: _req(V, "_I"), after=_capture("_I"), hints=_hints("_I"),
+    Ic = Contract(F, "_I", shapes=SH4, macros=MAC, prune=True, requires=lambda V: _req(V, "_I"), after=_capture("_I"), hints=_hints("_I"),
                   ensures=lambda V: [("def", V.ret == spec_I(V.p.i, V.p.ci, *_args(V))), ("range:I >= 0", V.ret >= 0)] + _exact(V, 0, 0))
     return {"_n": n, "_g": g, "_J": J, "_I": Ic}
 
@@ -236,8 +268,22 @@ def sort_omegas_contract():
 
 
 # ---------------------------------------------------------------- the ladder
-def _ladder_contract(fch, code, tag, requires, inv, ens, capture=None):
-    return Contract(F, "thm_get_integration_weight", fixed={"function": code}, tag=tag,
+def _pairwise_separated(V):
+    """every tetrahedron's vertex frequencies differ pairwise by at least THM_EPSILON (the region formulas apply)"""
+    t = z3.Int("t")
+    T = V.a.tetrahedra_omegas
+    cl = []
+    for a in range(4):
+        for b in range(a + 1, 4):
+            d = T[t, a] - T[t, b]
+            cl.append(z3.Or(d >= EPS, -d >= EPS))
+    return z3.ForAll([t], z3.Implies(z3.And(t >= 0, t < 24), z3.And(*cl)))
+
+
+def _ladder_contract(fch, code, tag, requires, inv, ens, capture=None, separated=True):
+    base_req = requires or (lambda V: [])
+    requires = (lambda V: [EPS > 0] + ([_pairwise_separated(V)] if separated else []) + list(base_req(V)))
+    return Contract(F, "thm_get_integration_weight", fixed={"function": code}, tag=tag, macros=MAC,
                     shapes={"tetrahedra_omegas": lambda P: [24, 4]}, requires=requires,
                     loops={("get_integration_weight", 0): LoopSpec(inv, capture=capture)},
                     use_contracts={"sort_omegas", "_n", "_g", "_J", "_I"}, ensures=ens, split=2)
@@ -290,7 +336,7 @@ def top_contracts():
 
                 def ens(V):
                     return [("exact", V.ret == 24 * val / 6)]
-                return _ladder_contract(fch, code, "[%s,%s]" % (fch, where), req, inv, ens)
+                return _ladder_contract(fch, code, "[%s,%s]" % (fch, where), req, inv, ens, separated=False)
             cs.append(mk())
     return cs
 
@@ -319,7 +365,7 @@ def vertex_contracts(finding_known):
                         arr = z3.Const("vertices_omegas", z3.ArraySort(z3.IntSort(), R))
                         lo_v = z3.substitute(lo, *[(z3.Select(arr, z3.IntVal(j)), vv[j]) for j in range(4)])
                         lo_v = z3.substitute(lo_v, (z3.Real("omega"), om))
-                        hy = _sorted(vv, strict=True) + [om == vv[kk], ci == c]
+                        hy = _separated(vv) + [om == vv[kk], ci == c]
                         wit = {"omega": om, "v0": vv[0], "v1": vv[1], "v2": vv[2], "v3": vv[3]}
                         lab = "contribution at omega==v%d equals region-%d limit (ci=%d)" % (kk, kk, c)
                         if finding_known and kk >= 1:
@@ -328,6 +374,8 @@ def vertex_contracts(finding_known):
                             w = ex.custom(Vx, "known-witness", "E4 still present: " + lab, contrib != lo_v, hyps=hy)
                             w.expect = "sat"
                             w.meta["finding_witness"] = "E4"
+                            # candidate from the quantifier-free part only; it counts only if it replays on the real code
+                            w.meta["relaxed_witness"] = True
                             w.meta["witness"] = wit
                             w.replay = replay_vertex
                             if z3.is_true(z3.simplify(z3.And(*Vx.st.pc))) is False:
